@@ -127,6 +127,75 @@ def otherDists (pts : List Point) (i : Nat) : List Rat :=
 /-- squared distance to the nearest other row; `none` = `inf` -/
 def proximity (pts : List Point) (i : Nat) : Option Rat := (otherDists pts i).min?
 
+/-! ### pair correlation (static.py:51-250), explicit `boundary`, `fraction = 1` -/
+
+/-- `boundary`: one `(min, max)` per axis, in the order of the coordinate columns -/
+abbrev Box := List (Rat × Rat)
+
+/-- `(feat.x >= xmin) & (feat.x <= xmax) & …` (static.py:99-100, 199-201): inclusive -/
+def inBox (box : Box) (p : Point) : Bool :=
+  (List.zipWith (fun v (b : Rat × Rat) => decide (b.1 ≤ v) && decide (v ≤ b.2)) p box).all id
+
+/-- `h` of `arclen_2d_bounded/area_3d_bounded` (static.py:314-315, 356-358): distance to the low
+and to the high side, axis after axis -/
+def sideDists (box : Box) (p : Point) : List Rat :=
+  (List.zipWith (fun v (b : Rat × Rat) => [v - b.1, b.2 - v]) p box).flatten
+
+/-- `(xmax - xmin) * (ymax - ymin) [* (zmax - zmin)]` -/
+def volume (box : Box) : Rat := (box.map fun b => b.2 - b.1).foldl (· * ·) 1
+
+/-- number of bins: `len(np.arange(0, cutoff + dr, dr)) - 1 = ceil(cutoff / dr)` -/
+def nbins (cutoff dr : Rat) : Nat := (cutoff / dr).ceil.toNat
+
+/-- `np.histogram` bin `k` = `[k·dr, (k+1)·dr)` on distances, expressed on squared distances.
+(The last bin of `np.histogram` is closed on the right, but `query(distance_upper_bound=cutoff)`
+only returns `dist < cutoff ≤ last edge`, so that edge is never hit.) -/
+def inBin (dr : Rat) (k : Nat) (d2 : Rat) : Bool :=
+  decide ((k * dr) * (k * dr) ≤ d2) && decide (d2 < ((k + 1) * dr) * ((k + 1) * dr))
+
+/-- one retained neighbour: squared distance and the side distances of the CENTRE particle -/
+abbrev Sample := Rat × List Rat
+
+/-- the neighbours of `p` kept by `query(..., distance_upper_bound=cutoff)` (strict) and the mask
+`dist > 0` (static.py:129-137): self and exact duplicates are dropped -/
+def neighbours (box : Box) (cutoff : Rat) (inside : List Point) (p : Point) : List Sample :=
+  inside.filterMap fun q =>
+    let d2 := dist2 p q
+    if 0 < d2 ∧ d2 < cutoff * cutoff then some (d2, sideDists box p) else none
+
+/-- all (ordered) retained pairs -/
+def samples (box : Box) (cutoff : Rat) (inside : List Point) : List Sample :=
+  inside.flatMap (neighbours box cutoff inside)
+
+def sumRat (l : List Rat) : Rat := l.foldr (· + ·) 0
+
+/-- weighted histogram value of one bin: `Σ 1/arc`; `none` = NaN as soon as one `arc` is NaN -/
+def binSum (arc : Rat → List Rat → Option Rat) (dr : Rat) (ss : List Sample) (k : Nat) :
+    Option Rat :=
+  let ws := (ss.filter fun s => inBin dr k s.1).map fun s => arc s.1 s.2
+  if ws.any Option.isNone then none
+  else some (sumRat (ws.map fun w => 1 / w.getD 1))
+
+/-- `ndensity` (static.py:102-103): given, or `(N - 1) / volume` -/
+def density (box : Box) (n : Nat) (nd : Option Rat) : Rat :=
+  match nd with
+  | some d => d
+  | none => ((n : Rat) - 1) / volume box
+
+/-- `g_r / (ndensity * len(pos) * dr)` for every bin -/
+def pairCorr (arc : Rat → List Rat → Option Rat) (box : Box) (cutoff dr : Rat)
+    (nd : Option Rat) (pts : List Point) : List (Option Rat) :=
+  let inside := pts.filter (inBox box)
+  let ss := samples box cutoff inside
+  let norm := density box inside.length nd * inside.length * dr
+  (List.range (nbins cutoff dr)).map fun k => (binSum arc dr ss k).map (· / norm)
+
+/-- `arc` given as a finite table (the driver plugs in the code's own edge-correction values) -/
+def arcOfTable (tbl : List (Sample × Option Rat)) (d2 : Rat) (h : List Rat) : Option Rat :=
+  match tbl.lookup (d2, h) with
+  | some w => w
+  | none => none
+
 /-! ### specification vocabulary (used by Props/C19) -/
 
 /-- reflexive-transitive closure: `a = x₀, x₁, …, x_k = b` with `R xᵢ xᵢ₊₁` — a *chain* -/
